@@ -44,7 +44,7 @@ def c16_programs(ctx, spec):
                           [int(x) for x in e.split()])
             elif p[0] == "K":
                 f = line.split()
-                obs[int(f[1])] = ("K", int(f[2]), int(f[3]), [int(f[4]), int(f[5]), int(f[6])])
+                obs[int(f[1])] = ("K", int(f[2]), int(f[3]) + (int(f[4]) << 64), [int(f[5]), int(f[6]), int(f[7])])
         if len(obs) != len(lits):
             raise CheckError("c16lits: %d outputs for %d literals" % (len(obs), len(lits)))
         path = os.path.join(GEN, "cases_C16_%s.v" % profile)
@@ -62,7 +62,7 @@ def c16_programs(ctx, spec):
             rows = []
             for i, (m, t) in enumerate(lits):
                 o = obs[i]
-                k = {"dna": 0, "iupac": 1, "kmer": 2}[m]
+                k = {"dna": 0, "iupac": 1, "kmer": 2, "kmer64": 2, "kmer128": 2}[m]
                 if o[0] == "L":
                     rows.append("(%d, %s, %s, %s, %s)" % (k, _coq_bytes(t), coq_list(o[1]), coq_list(o[2]), coq_list(o[3])))
                 else:
